@@ -1059,6 +1059,9 @@ decl(struct scope *s, struct func *f)
 				scopeputdecl(s, mkdecl(name, DECLTYPE, t, tq, LINKNONE));
 			else if (!typesame(prior->type, t) || prior->qual != tq)
 				error(&tok.loc, "typedef '%s' redefined with different type", name);
+			/* array size expressions are evaluated when the typedef is reached */
+			if (f && t->prop & PROPVM)
+				calcvla(f, t);
 			break;
 		case DECLOBJECT:
 			if (align && align < t->align)
